@@ -1,0 +1,67 @@
+//go:build verif
+
+package tls
+
+import (
+	"io"
+
+	"github.com/refraction-networking/utls/internal/quicvarint"
+	"github.com/refraction-networking/utls/internal/quicvarint/protocol"
+)
+
+// Accessors for the verification harness (only compiled with -tags verif): thin wrappers
+// around the unexported prng type and the internal quicvarint package. No call sites.
+
+// VerifPRNG wraps the unexported seeded prng.
+type VerifPRNG struct{ p *prng }
+
+func verifSeed(seed []byte) *PRNGSeed {
+	s := new(PRNGSeed)
+	copy(s[:], seed)
+	return s
+}
+
+// VerifNewPRNG is newPRNGWithSeed.
+func VerifNewPRNG(seed []byte) (*VerifPRNG, error) {
+	p, err := newPRNGWithSeed(verifSeed(seed))
+	if err != nil {
+		return nil, err
+	}
+	return &VerifPRNG{p}, nil
+}
+
+// VerifNewSaltedPRNG is newPRNGWithSaltedSeed.
+func VerifNewSaltedPRNG(seed []byte, salt string) (*VerifPRNG, error) {
+	p, err := newPRNGWithSaltedSeed(verifSeed(seed), salt)
+	if err != nil {
+		return nil, err
+	}
+	return &VerifPRNG{p}, nil
+}
+
+// VerifSaltedSeed is newSaltedPRNGSeed.
+func VerifSaltedSeed(seed []byte, salt string) ([]byte, error) {
+	s, err := newSaltedPRNGSeed(verifSeed(seed), salt)
+	if err != nil {
+		return nil, err
+	}
+	return s[:], nil
+}
+
+func (v *VerifPRNG) Read(b []byte) (int, error)      { return v.p.Read(b) }
+func (v *VerifPRNG) Int63() int64                    { return v.p.Int63() }
+func (v *VerifPRNG) Uint64() uint64                  { return v.p.Uint64() }
+func (v *VerifPRNG) Intn(n int) int                  { return v.p.Intn(n) }
+func (v *VerifPRNG) Int63n(n int64) int64            { return v.p.Int63n(n) }
+func (v *VerifPRNG) Perm(n int) []int                { return v.p.Perm(n) }
+func (v *VerifPRNG) Range(min, max int) int          { return v.p.Range(min, max) }
+func (v *VerifPRNG) FlipWeightedCoin(w float64) bool { return v.p.FlipWeightedCoin(w) }
+
+// internal/quicvarint cannot be imported from another module.
+
+func VerifVarintAppend(b []byte, i uint64) []byte { return quicvarint.Append(b, i) }
+func VerifVarintAppendWithLen(b []byte, i uint64, length int64) []byte {
+	return quicvarint.AppendWithLen(b, i, protocol.ByteCount(length))
+}
+func VerifVarintRead(r io.ByteReader) (uint64, error) { return quicvarint.Read(r) }
+func VerifVarintLen(i uint64) int64                   { return int64(quicvarint.Len(i)) }
